@@ -479,6 +479,36 @@ def oracle_c16(ent):
     return None
 
 
+def oracle_c16_after_pre(ent, d):
+    """the orientation rule on the reads as they reach the adapter stage: with -u / -q / --nextseq-trim in front of it, --revcomp looks at
+    (and reverse-complements) the read those steps left, not the input read.  The command-line run reduced to these steps and the adapters
+    must write what the rule gives for the pre-processed reads"""
+    cfg = ent["cfg"]
+    if not cfg.revcomp or not cfg.adapters or not (cfg.cuts or cfg.nextseq is not None or cfg.qcut not in (None, "0")):
+        return None
+    from cutadapt.modifiers import AdapterCutter
+    from dnaio import SequenceRecord
+
+    pre = S.Cfg(fasta=cfg.fasta, qbase=cfg.qbase, cuts=cfg.cuts, nextseq=cfg.nextseq, qcut=cfg.qcut)
+    core_ = S.Cfg(fasta=cfg.fasta, qbase=cfg.qbase, cuts=cfg.cuts, nextseq=cfg.nextseq, qcut=cfg.qcut, revcomp=True)
+    for k in ("adapters", "error_rate", "overlap", "no_indels", "no_wild", "read_wild", "times", "action"):
+        setattr(core_, k, getattr(cfg, k))
+    a, b = S.run_impl(pre, ent["reads"], d), S.run_impl(core_, ent["reads"], d)
+    if a["exit"] != 0 or b["exit"] != 0 or len(a["files"].get(0, [])) != len(ent["reads"]) or len(b["files"].get(0, [])) != len(ent["reads"]):
+        return None
+    action = None if cfg.action == "none" else cfg.action
+    for (name, seq, qual), (n2, got, gq) in zip(a["files"][0], b["files"][0]):
+        def cutter():
+            return AdapterCutter(S.adapter_objects(cfg), cfg.times, action, False)
+        fwd, fm = cutter().match_and_trim(SequenceRecord(name, seq, qual))
+        rev, rm = cutter().match_and_trim(SequenceRecord(name, seq, qual).reverse_complement())
+        fs, rs = sum(m.score for m in fm), sum(m.score for m in rm)
+        exp = rev if (bool(rm) and rs > fs) else fwd
+        if (got, gq) != (exp.sequence, exp.qualities):
+            return "after the steps in front of the adapters the read is %r; forward score %d, reverse score %d: the rule gives %r, the run wrote %r" % (seq, fs, rs, exp.sequence, got)
+    return None
+
+
 def oracle_c17(ent):
     cfg, res, reads = ent["cfg"], ent["impl"], ent["reads"]
     if not cfg.info_file or res["info"] is None:
@@ -1041,7 +1071,7 @@ def run(ctx, pid):
                 elif pid == "C15":
                     why = oracle_c15(ent, d)
                 elif pid == "C16":
-                    why = oracle_c16(ent)
+                    why = oracle_c16(ent) or oracle_c16_after_pre(ent, d)
                 elif pid == "C17":
                     why = oracle_c17(ent)
                 elif pid == "C20":
@@ -1454,7 +1484,7 @@ def replay(doc, pid):
         return 1
     with S.Scratch() as d:
         why = {"C03": lambda: oracle_c03(ent) or oracle_c03_actions(ent, d) or oracle_c03_retain(ent), "C04": lambda: oracle_c04(ent, d), "C10": lambda: oracle_c10(ent, d),
-               "C09": lambda: oracle_c09(ent) or oracle_c09_reaching(ent, d), "C11": lambda: oracle_c11(ent, d), "C15": lambda: oracle_c15(ent, d), "C16": lambda: oracle_c16(ent),
+               "C09": lambda: oracle_c09(ent) or oracle_c09_reaching(ent, d), "C11": lambda: oracle_c11(ent, d), "C15": lambda: oracle_c15(ent, d), "C16": lambda: oracle_c16(ent) or oracle_c16_after_pre(ent, d),
                "C17": lambda: oracle_c17(ent), "C20": lambda: oracle_c20(ent)}[pid]()
     print("argv", ent["impl"]["argv"][5:-1])
     print("oracle:", why or "property holds on this input", "| model/impl differences:", ent.get("diffs"))
